@@ -279,8 +279,8 @@ Definition no_hole_below (os : ostate) (w sn : Z) : bool :=
   end.
 
 (* payload, writer, sequence number and source timestamp are those of a submessage that delivered
-   the sample: the DATA itself, or for a fragmented sample a DATAFRAG of it announcing the sample's
-   size (the bytes are C05's subject) *)
+   the sample: the DATA itself, or for a fragmented sample a DATAFRAG of it (the reassembled bytes are
+   C05's subject; the correspondence run compares them with the C05 assembler model) *)
 Definition delivered_by (h : hsample) (o : op) : bool :=
   let '(w, sn, ts, pay) := h in
   match o with
@@ -288,29 +288,29 @@ Definition delivered_by (h : hsample) (o : op) : bool :=
       (w =? w') && (sn =? sn') && zlist_eqb pay pay'
       && match ts, ts' with Some x, Some y => x =? y | None, None => true | _, _ => false end
   | Frag w' df ts' =>
-      (w =? w') && (sn =? F.df_sn df) && (len pay =? F.df_data_size df)
+      (w =? w') && (sn =? F.df_sn df)
       && match ts, ts' with Some x, Some y => x =? y | None, None => true | _, _ => false end
   | _ => false
   end.
 
-Definition handed_ok (os : ostate) (h : hsample) : bool :=
+Definition handed_ok (holes : bool) (os : ostate) (h : hsample) : bool :=
   let '(w, sn, ts, pay) := h in
   match last_handed w (os_handed os) with Some l => l <? sn | None => true end   (* order, once *)
   && existsb (delivered_by h) (os_hist os)                                      (* fidelity *)
-  && (os_evicted os || no_hole_below os w sn).                                   (* no holes *)
+  && (negb holes || os_evicted os || no_hole_below os w sn).                     (* no holes *)
 
-Fixpoint handed_all (os : ostate) (l : list hsample) : option ostate :=
+Fixpoint handed_all (holes : bool) (os : ostate) (l : list hsample) : option ostate :=
   match l with
   | [] => Some os
   | h :: l' =>
-      if handed_ok os h then
-        handed_all {| os_S := os_S os; os_added := os_added os;
+      if handed_ok holes os h then
+        handed_all holes {| os_S := os_S os; os_added := os_added os;
                       os_handed := (fst (fst (fst h)), snd (fst (fst h))) :: os_handed os;
                       os_len := os_len os; os_evicted := os_evicted os; os_hist := os_hist os |} l'
       else None
   end.
 
-Definition ostep (os : ostate) (a : aop) (ao : aobs) : option ostate :=
+Definition ostep (holes : bool) (os : ostate) (a : aop) (ao : aobs) : option ostate :=
   match a, ao with
   | ASub o, OSub adds marker clen =>
       let w := op_writer o in
@@ -324,14 +324,14 @@ Definition ostep (os : ostate) (a : aop) (ao : aobs) : option ostate :=
                 os_evicted := os_evicted os || negb (clen =? os_len os + len adds);
                 os_hist := o :: os_hist os |}
       else None
-  | ATake n, OTake l => if len l <=? n then handed_all os l else None
+  | ATake n, OTake l => if len l <=? n then handed_all holes os l else None
   | _, _ => None
   end.
 
-Fixpoint ochk (os : ostate) (ops : list aop) (l : list aobs) : bool :=
+Fixpoint ochk (holes : bool) (os : ostate) (ops : list aop) (l : list aobs) : bool :=
   match ops, l with
   | [], [] => true
-  | a :: ops', ao :: l' => match ostep os a ao with Some os' => ochk os' ops' l' | None => false end
+  | a :: ops', ao :: l' => match ostep holes os a ao with Some os' => ochk holes os' ops' l' | None => false end
   | _, _ => false
   end.
 
@@ -339,9 +339,12 @@ Definition oinit (matched : list Z) : ostate :=
   {| os_S := sinit matched; os_added := []; os_handed := []; os_len := 0; os_evicted := false;
      os_hist := [] |}.
 
-Definition ok (c : case) (o : obs) : bool :=
+(* [holes = true]: the whole property; [holes = false]: order, once and fidelity only *)
+Definition ok_with (holes : bool) (c : case) (o : obs) : bool :=
   if negb (wf_case c) then match o with OInvalid => true | _ => false end
   else match o with
-       | ORun l => ochk (oinit (c_matched c)) (c_ops c) l
+       | ORun l => ochk holes (oinit (c_matched c)) (c_ops c) l
        | _ => false
        end.
+Definition ok := ok_with true.
+Definition ok_core := ok_with false.
